@@ -277,6 +277,27 @@ func (wd *world) checkConverged(tr *ftransport) {
 	if st.failSeq != 0 && st.failSeq < q {
 		return
 	}
+	// flow control must not wedge: every watcher has called done() long ago,
+	// so the client must be waiting in Recv for the next message
+	lastKind := ""
+	for _, it := range st.items {
+		switch {
+		case it.recvEnter != 0 && it.recvEnter < q:
+			lastKind = "enter"
+		case it.resp != nil && it.resp.seq < q:
+			lastKind = "resp " + it.resp.tag
+			if it.resp.kind == "unk" {
+				lastKind = "unk " + it.resp.tag
+			}
+		}
+	}
+	if strings.HasPrefix(lastKind, "unk") {
+		e.Violate("unknown_type_response_wedges_stream", "%s stream %d: after reading a response of a resource type it does not know (%s) the client never called Recv again (quiescent, stream still up)", tr.name(), st.idx, lastKind)
+	} else if strings.HasPrefix(lastKind, "resp") {
+		e.Violate("reading_resumes", "%s stream %d: at quiescence every watcher has finished, but the client never called Recv again after reading %s", tr.name(), st.idx, lastKind)
+	} else if lastKind == "enter" {
+		e.Probe("reading_checked")
+	}
 	active := wd.lowestPriorityAlive(tr, q, q)
 	for t := 0; t < 2; t++ {
 		var want []string
